@@ -74,6 +74,13 @@ func genC04(r *rand.Rand, run int, tier string) *vm.Plan {
 	nv := 1 + r.Intn(3)
 	for i := 0; i < nv; i++ {
 		az := g.Authz(5, 3, 3, 4, 6)
+		if r.Intn(40) == 0 {
+			// many failing checks at once, around the sizes at which lists are usually cut or wrapped
+			n := []int{15, 16, 17, 31, 32, 33, 63, 64, 65}[r.Intn(9)]
+			for k := 0; k < n; k++ {
+				az.Checks = append(az.Checks, ref.Check{Queries: []ref.Rule{{Head: ref.Pred{Name: "query"}, Body: []ref.Pred{{Name: "nobody_states_this", Terms: []ref.Term{ref.Int(int64(k))}}}}}})
+			}
+		}
 		var qs []ref.Rule
 		if r.Intn(3) == 0 {
 			qs = append(qs, g.Rule())
